@@ -57,6 +57,16 @@ def mk(kind, q, txt, note="gen"):
 def randcase(rng, b): return bytes(c ^ 32 if (65 <= c <= 90 or 97 <= c <= 122) and rng.random() < 0.5 else c for c in b)
 
 
+def rand_literal(rng):
+    k = rng.random()
+    if k < 0.4:
+        v = rng.choice([2**31 - 1, 2**31, 2**32 - 1, 2**32, 2**32 + 1, 9999999999, 6000000000, 5294967296, 10**10, 10**9, 123456789012, rng.randrange(10**rng.randint(1, 12))])
+        return (rng.choice(["", "+", "-", "0", "00"]) + str(v)).encode()
+    if k < 0.7:
+        return ("%s%d.%s" % (rng.choice(["", "-", "+"]), rng.randrange(10**rng.randint(0, 10)), "".join(rng.choice("0123456789") for _ in range(rng.randint(0, 8))))).encode()
+    return ("%s%d%s%s%d" % (rng.choice(["", "-"]), rng.randrange(1, 10**rng.randint(1, 10)), rng.choice(["", ".5", ".25"]), rng.choice("eE"), rng.randint(-12, 8))).encode()
+
+
 def corpus():
     return [mk("unit", "Energy", b"1MJ"), mk("unit", "Energy", b"1 MAJ"), mk("unit", "Frequency", b"1 MHZ"), mk("unit", "Frequency", b"1 MAHZ"),
             mk("unit", "ElectricalResistance", b"1 MOHM"), mk("unit", "ElectricCurrent", b"1 MA"), mk("unit", "Capacitance", b"1 MF"), mk("unit", "Time", b"1 M"),
@@ -85,6 +95,10 @@ def generate(rng, tier):
             if s and s.upper() not in [x.upper() for x in sufs] and (s[:1].isalpha() or s[:1] == b"/") and not (s[:1] in b"eE" and s[1:2].isdigit()):
                 out.append(mk("unit", q, b"1 " + s[:12], "miss"))
         for e in (b"ABC", b"MAX", b"'1'", b"#11", b"(1)", b"#HFF"): out.append(mk("unit", q, e, "elem"))
+        # the literal itself: every decimal form scales correctly (integers of 1..12 digits around 2^31/2^32/10^10, leading zeros,
+        # explicit plus, fractions, exponents of both signs)
+        for _ in range(12 if tier == "quick" else 120):
+            out.append(mk("unit", q, rand_literal(rng) + rng.choice([b"", b" "]) + randcase(rng, rng.choice(sufs + [b""]))))
     for q, ents in logs:
         for lit in LITS[:3]: out.append(mk("db", q, lit))
         for ss, _ in ents:
